@@ -1,0 +1,37 @@
+// Copyright 2025 SCION Association
+//
+// Licensed under the Apache License, Version 2.0 (the "License");
+// you may not use this file except in compliance with the License.
+// You may obtain a copy of the License at
+//
+//   http://www.apache.org/licenses/LICENSE-2.0
+//
+// Unless required by applicable law or agreed to in writing, software
+// distributed under the License is distributed on an "AS IS" BASIS,
+// WITHOUT WARRANTIES OR CONDITIONS OF ANY KIND, either express or implied.
+// See the License for the specific language governing permissions and
+// limitations under the License.
+
+//go:build verif
+
+package ringbuf
+
+// SimYield, when set by a deterministic simulator, is called before every lock acquisition of a
+// Ring and after every wake-up from a condition variable (with the ring's mutex released), so
+// that the simulator decides which goroutine proceeds.
+var SimYield func(r *Ring, site string)
+
+func simYield(r *Ring, site string) {
+	if SimYield != nil {
+		SimYield(r, site)
+	}
+}
+
+// simYieldLocked is called with r.mutex held, right after Cond.Wait returned.
+func simYieldLocked(r *Ring, site string) {
+	if SimYield != nil {
+		r.mutex.Unlock()
+		SimYield(r, site)
+		r.mutex.Lock()
+	}
+}
